@@ -49,8 +49,12 @@ def main(argv):
             rep = Report(prop, tier)
             try:
                 mod.run(prog, rep, tier)
-                if tier == "thorough" and hasattr(mod, "thorough"):
-                    mod.thorough(prog, rep)
+                if tier == "thorough":
+                    if hasattr(mod, "thorough"):
+                        mod.thorough(prog, rep)
+                    rep.check_pins()
+                    from pgfstatic.selftest import run_selftest
+                    run_selftest(prop, rep, repo)
                 rep.check_pins()
             except model.AnalysisError as e:
                 # a violation that was positively identified before the analysis got stuck is
